@@ -209,7 +209,8 @@ impl Lane for C15 {
                     vs.push(Violation::new("missing_panic", &name, "inadmissible", format!("{b:?} must panic but returned a digraph of order {}", o.order)));
                 }
                 if rep.log.max_task > 0 {
-                    vs.push(Violation::new("worker_started_before_rejection", &name, "inadmissible", format!("{b:?}: {} workers were spawned", rep.log.max_task)));
+                    // not required by the property (it only asks for the panic): counted
+                    st.bump("note/workers_started_before_inadmissible_arguments_were_rejected");
                 }
             }
         }
